@@ -184,6 +184,7 @@ EXPORT errno_t _mbsrtowcs_s_chk(size_t *restrict retvalp,
     orig_dest = dest;
     memcpy(&orig_ps, ps, sizeof(orig_ps));
 
+    errno = 0;
     *retvalp = mbsrtowcs(dest, srcp, (dest && len > dmax) ? dmax : len, ps);
 
     if (likely(*retvalp < dmax)) {
